@@ -295,13 +295,79 @@ EXTRA = [
 ]
 
 
+def _resolve(name):
+    """the class object a classifier branch names, evaluated the way the classifier would"""
+    ns = dict(U.__dict__)
+    ns.update({'hailtop': hailtop, 'aiohttp': aiohttp, 'asyncio': asyncio, 'socket': socket})
+    try:
+        cls = eval(name, ns)   # noqa: S307 - the text comes from the repository's own source
+    except Exception as e:
+        raise HarnessError(f'classifier branch names {name!r}, which cannot be resolved: {type(e).__name__}: {e}')
+    if not (isinstance(cls, type) and issubclass(cls, BaseException)):
+        raise HarnessError(f'classifier branch names {name!r}, which is not an exception class')
+    return cls
+
+
+def _builtin_subclasses(cls):
+    """cls and every builtin exception class below it (transitively), in a stable order"""
+    out, todo = [], [cls]
+    while todo:
+        c = todo.pop(0)
+        if c in out:
+            continue
+        out.append(c)
+        todo += sorted((x for x in c.__subclasses__() if x.__module__ == 'builtins'), key=lambda x: x.__name__)
+    return out
+
+
+_SYM_CACHE = {}
+
+
+def _generic_ctor(cls):
+    """constructor for a class the table does not know: OSError family -> subclass with Python-property errno/strerror
+    (symbolic errno); anything else -> no-argument construction"""
+    if issubclass(cls, OSError):
+        if cls not in _SYM_CACHE:
+            _SYM_CACHE[cls] = _sym_os(cls)
+        sym = _SYM_CACHE[cls]
+        return lambda p, s: sym(p)
+    try:
+        cls()
+    except Exception as e:
+        raise HarnessError(f'no way to construct {cls.__module__}.{cls.__qualname__} for the C21 catalogue: {e}')
+    return lambda p, s: cls()
+
+
+NAMED = []        # class objects exactly named by some classifier branch
+
+
 def build_catalogue():
+    """one entry per class named in an isinstance test of the classifiers (hand-written constructor when the table has
+    one, generic otherwise), plus - for every named builtin class - each builtin subclass of it that is not named
+    itself (e.g. OSError brings ConnectionAbortedError, BrokenPipeError, FileNotFoundError, ...), plus EXTRA"""
     names = _isinstance_targets()
-    missing = [n for n in names if n not in CTORS]
-    if missing:
-        raise HarnessError(f'classifier branch names a class the C21 catalogue has no constructor for: {missing}')
-    cat = [(n,) + CTORS[n] for n in names] + list(EXTRA)
-    return cat
+    cat, present = [], []
+    for nm in names:
+        cls = _resolve(nm)
+        NAMED.append(cls)
+        if nm in CTORS:
+            cat.append((nm,) + CTORS[nm])
+        else:
+            cat.append((nm, _generic_ctor(cls), 1))
+        present.append(cls)
+    for cls in list(NAMED):
+        if cls.__module__ != 'builtins':
+            continue
+        for sub in _builtin_subclasses(cls):
+            if sub in present:
+                continue
+            try:
+                ctor = _generic_ctor(sub)
+            except HarnessError:
+                continue          # a builtin subclass that needs constructor arguments (UnicodeError family)
+            present.append(sub)
+            cat.append((f'{sub.__name__} (builtin subclass of {cls.__name__})', ctor, 1))
+    return cat + list(EXTRA)
 
 
 CATALOGUE = build_catalogue()
@@ -643,6 +709,95 @@ def context_check(helper, okind, status, ckind, depth, suppress):
     outcome, same, ncalls, nsleeps, ctx_set = context_run(helper, okind, status, ckind, depth, suppress)
     if outcome != 'raised':
         return f'{OUTSIDE[okind][0] if 0 <= okind < len(OUTSIDE) else okind} was retried ({ncalls} calls, outcome {outcome})'
+    if not same:
+        return 'a different exception object was raised'
+    if ncalls != 1:
+        return f'{ncalls} calls before the error was raised'
+    if nsleeps != 0:
+        return f'{nsleeps} sleeps before the error was raised'
+    return ''
+
+
+# ---- family X, part 2: OSError-family classes that no classifier branch names ------------------------------------------
+# Expected verdict from the property text ("any other error: raised at once"), for: a builtin OSError subclass whose
+# class object is not exactly named by any classifier isinstance test, carrying an errno that the classifiers compare
+# nowhere (not in RETRYABLE_ERRNOS of the tree under test, not among the integer constants in the classifiers' source,
+# not a socket.EAI_* constant they use).  The errno reference set is read from the tree under test: it is a pinned
+# reference, the property text names no errno.
+def _reference_errnos():
+    ints = set(U.RETRYABLE_ERRNOS) | {socket.EAI_AGAIN, socket.EAI_NONAME}
+    for fn in CLASSIFIERS:
+        for n in ast.walk(_func_node(_TREE, fn)):
+            if isinstance(n, ast.Constant) and isinstance(n.value, int) and not isinstance(n.value, bool):
+                ints.add(n.value)
+    return tuple(sorted(ints))
+
+
+REF_ERRNOS = _reference_errnos()
+OSX = [c for c in _builtin_subclasses(OSError) if c not in NAMED]
+OSX_SYM = [_sym_os(c) for c in OSX]
+ERRNO_MAX = 200
+
+
+def osx_exc(okind, en):
+    e = None
+    for i in range(len(OSX)):
+        if okind == i:
+            e = OSX_SYM[i](en)
+    if e is None:
+        e = OSX_SYM[0](en)
+    return e
+
+
+def osx_run(helper, okind, en):
+    outer = osx_exc(okind, en)
+    calls = [0]
+
+    def body():
+        i = calls[0]
+        calls[0] += 1
+        if i == 0:
+            raise outer
+        return SENTINEL
+
+    async def f():
+        return body()
+
+    _State.sleeps = []
+    _State.delays = []
+    _State.jitter = []
+    _State.jitter_ok = True
+    outcome, raised = 'suspended', None
+    try:
+        if helper == 'sync':
+            v = U.sync_retry_transient_errors(body)
+            outcome = 'ok' if v is SENTINEL else 'wrong-value'
+        else:
+            if helper == 'debug_string':
+                coro = U.retry_transient_errors_with_debug_string('dbg', 0, f)
+            elif helper == 'plain':
+                coro = U.retry_transient_errors(f)
+            else:
+                coro = U.retry_transient_errors_with_delayed_warnings(0, f)
+            try:
+                coro.send(None)
+                coro.close()
+            except StopIteration as st:
+                outcome = 'ok' if st.value is SENTINEL else 'wrong-value'
+    except Exception as e:
+        outcome, raised = 'raised', e
+    return outcome, raised is outer, calls[0], len(_State.sleeps)
+
+
+def osx_check(helper, okind, en):
+    """'' when the unnamed OSError-family error with an errno outside the reference set is raised at once"""
+    for r in REF_ERRNOS:
+        if en == r:
+            return ''          # an errno the classifiers do compare: not part of this obligation
+    outcome, same, ncalls, nsleeps = osx_run(helper, okind, en)
+    name = OSX[okind].__name__ if 0 <= okind < len(OSX) else str(okind)
+    if outcome != 'raised':
+        return f'{name}(errno={en}) was retried ({ncalls} calls, outcome {outcome})'
     if not same:
         return 'a different exception object was raised'
     if ncalls != 1:
